@@ -176,6 +176,12 @@ def _work(ctx: Ctx, item):
                     mm = ((1 << f.bits) - 1) << f.offset_bits
                     for b, w, c in one(((bp & ~mm) | (spec << f.offset_bits), bn, [cname])):
                         ctx.report(b, w, c)
+                elif cname in ("source_constant", "magnitude_edge") and f.offset_bits is not None:
+                    # every listed in-range raw: library literals and magnitudes (2^k, 10^k, +-1; as raw and as value)
+                    mm = ((1 << f.bits) - 1) << f.offset_bits
+                    for v in spec[1]:
+                        for b, w, c in one(((bp & ~mm) | (v << f.offset_bits), bn, [cname])):
+                            ctx.report(b, w, c)
         ctx.hyp(one, gen.payloads(d, mode="accepted", extra_bytes=False), max_examples=n_hyp, name="accepted")
         if d.index % 30 == 0:
             ctx.sample({"definition": key, "payload_hex": bp.to_bytes(bn, "little").hex(), "fields": [f.id for f in d.fields][:8]})
